@@ -482,6 +482,7 @@ func runTrees(r *core.Run, e *treeEnv, unit *int64, minOps, maxOps int, inputs [
 		return !r.Expired()
 	}
 	base := *unit
+	cut := false
 	total := dsl.Enumerate(maxOps, 3, func(idx int64, p dsl.Prog) bool {
 		if countOps(p) < minOps {
 			return true
@@ -494,13 +495,17 @@ func runTrees(r *core.Run, e *treeEnv, unit *int64, minOps, maxOps int, inputs [
 		if len(progs) >= batch {
 			if !flush() {
 				r.NotExhaustive("deadline during the DSL tree displays (" + section + ", simplest programs first)")
+				cut = true
 				return false
 			}
 		}
 		return true
 	})
-	if !r.Expired() {
-		flush()
+	if !cut && !flush() {
+		// the deadline passed during the last batch: it was displayed completely only if
+		// flush went through all its trees, which it reports by returning true
+		r.NotExhaustive("deadline during the DSL tree displays (" + section + ", simplest programs first)")
+		cut = true
 	}
 	*unit += total
 	r.Eval(dumps)
@@ -508,10 +513,14 @@ func runTrees(r *core.Run, e *treeEnv, unit *int64, minOps, maxOps int, inputs [
 	r.Count(section+"_values", nodes)
 	r.Count(section+"_trees", ntrees)
 	r.Count(section+"_programs_without_tree", failed)
-	r.Extra(section+"_programs_total", total)
+	if !cut {
+		r.Extra(section+"_programs_total", total)
+	}
 	r.Extra(section+"_configurations_per_value", perValue)
 	r.Extra(section+"_configurations_total", len(e.cfgs))
-	r.Section(section)
+	if !cut {
+		r.Section(section)
+	}
 }
 
 func dslPath(v *decode.Value) string { return dsl.PathOf(v) }
